@@ -24,6 +24,9 @@ type Analysis struct {
 	// PostCall is called after the transfer of a call instruction (ghost updates that
 	// depend on the call having happened).
 	PostCall func(a *Analysis, f *Frame, in ssa.CallInstruction, st State) State
+	// EdgeHook is called for every control-flow edge with the state flowing along it (after
+	// branch filtering, before phi kills are visible to the successor).
+	EdgeHook func(a *Analysis, f *Frame, from, to *ssa.BasicBlock, st State)
 	// EnterFrame is called when a callee is about to be inlined; returning false treats
 	// the call as opaque (killing what it may write).
 	NoInline func(callee *ssa.Function) bool
@@ -185,6 +188,9 @@ func (a *Analysis) analyze(f *Frame, entry State) *exitState {
 					break
 				}
 				s = a.killReg(s, phi)
+			}
+			if a.EdgeHook != nil {
+				a.EdgeHook(a, f, b, succ, s)
 			}
 			ek := [2]int{b.Index, succ.Index}
 			edgeIn[ek] = Union(edgeIn[ek], s)
